@@ -15,7 +15,11 @@ THEOREMS = ["Drand.Net." + t for t in [
     "c05_step_progress", "c05_level", "c05_catchup", "c05_no_skip", "c05_no_skip_store", "c05_rejoin", "c05_rejoin_needed",
     "c05_below_threshold_no_progress", "c05_heads_monotone", "c05_heads_monotone_run", "c05_quiet_of_heads", "tie_net_rules"]] + \
     ["Drand.Net.Reshare." + t for t in ['tie_broadcast_recipients', 'tie_aggregator_threshold_in_loop', 'tie_transition_skip', 'c07_registration_any_time', 'c07_registration_partial', 'c07_late_registration_counterexample', 'c07_reshare_step_progress', 'c07_transition_round_produced']] + \
-    ["Drand.Net." + t for t in ["tie_scheme_put_order", "c05_failed_put_retry", "c05_last_first_counterexample"]]
+    ["Drand.Net." + t for t in ["tie_scheme_put_order", "c05_failed_put_retry", "c05_last_first_counterexample"]] + \
+    ["Drand.Net.Reshare." + t for t in ['sane_run', 'sane_init', 'c07_quiet_of_reachable', 'c07_told_is_punctual', 'c07_quiet_counterexample', 'c07_quiet_of_healthy',
+                                        'c07_level', 'c07_fair_tick', 'c07_fair_round', 'c07_catch_progress', 'c07_chain_continues', 'c07_round_produced',
+                                        'c07_no_skip', 'c07_heads_monotone',
+                                        'c07_quiet_of_reachable_repaired', 'replace_apply', 'c07_quiet_of_sound', 'c07_fair_tick_repaired', 'c07_chain_continues_repaired', 'cx_sound']]
 TRUSTED = ["Lean 4 kernel; axioms per theorem under coverage.axioms",
            "go2lean netrules extractor: the round arithmetic and guards of broadcastNextPartial, Handler.run, Catchup, ProcessPartialBeacon, "
            "runAggregator, tryAppend, shouldSync, SyncManager.Run/tryNode are regenerated into Gen.NetRules and USED by the model; "
